@@ -4,36 +4,6 @@
 // R8: BTreeMap<ObjectId, Object> is modelled by its key-ordered entry list (iteration order of a BTreeMap)
 pub struct ObjMap { pub entries: Vec<((u32, u16), Object)> }
 
-// ---- IndexMap semantics of Dictionary::set / remove over the abstract dictionary (insertion order, swap_remove)
-pub open spec fn sdict_find(d: SDict, k: Seq<u8>, i: int) -> int decreases d.len() - i {
-    if i < 0 || i >= d.len() { -1 } else if d[i].0 == k { i } else { sdict_find(d, k, i + 1) }
-}
-pub open spec fn sdict_set(d: SDict, k: Seq<u8>, v: SObj) -> SDict {
-    let i = sdict_find(d, k, 0);
-    if i >= 0 { d.update(i, (k, v)) } else { d.push((k, v)) }
-}
-pub open spec fn sdict_remove(d: SDict, k: Seq<u8>) -> SDict {
-    let i = sdict_find(d, k, 0);
-    if i < 0 { d } else if i == d.len() - 1 { d.drop_last() } else { d.update(i, d.last()).drop_last() }
-}
-pub open spec fn sdict_get(d: SDict, k: Seq<u8>) -> Option<SObj> {
-    let i = sdict_find(d, k, 0);
-    if i >= 0 { Some(d[i].1) } else { None }
-}
-impl Dictionary {
-    // R8/R11: `set<K: Into<Vec<u8>>, V: Into<Object>>` at the concrete types of the call sites
-    #[verifier::external_body]
-    pub fn set(&mut self, key: &[u8], value: Object)
-        ensures abs_dict(*final(self)) == sdict_set(abs_dict(*old(self)), key@, abs(value))
-    { unimplemented!() }
-    #[verifier::external_body]
-    pub fn remove(&mut self, key: &[u8]) -> (r: Option<Object>)
-        ensures abs_dict(*final(self)) == sdict_remove(abs_dict(*old(self)), key@)
-    { unimplemented!() }
-}
-// R5: derived Clone on Dictionary is the structural identity
-#[verifier::external_body]
-pub fn clone_dictionary(d: &Dictionary) -> (r: Dictionary) ensures r == *d { unimplemented!() }
 pub assume_specification<T: Clone> [<[T]>::to_vec] (s: &[T]) -> (r: Vec<T>) ensures r@ == s@;   // used at T = u8 only
 
 // R15: the ObjStm / XRef / Linearized skip test of save_internal; its meaning is irrelevant to the layout
